@@ -84,6 +84,60 @@ def check_state_handled(rep, mod):
                     key='R-STATE-HANDLED|%s|%d' % (kind, v), sample='%s: %d state constants stored, all tested' % (kind, len(stored)) if v == min(stored) else None)
 
 
+def check_tmp_twins(rep, mod):
+    """every deflate state X has a twin ZSTATE_TMP_X that means "X, with bytes still parked in tmp_out_buff".  A condition that lists states by name and already
+    names one (X, TMP_X) pair is about what X MEANS, so it has to name the twin of every other state it lists as well."""
+    R = rep.rule('R-TMP-TWINS', 'every short-circuit chain of equality tests on internal_state.state (blocks that branch to one common target on state == constant, else fall to the next test) that contains some state '
+                 'together with its ZSTATE_TMP_ twin contains the twin of every state it lists: a resume through the temporary output buffer is treated like the state it resumes', floor=1, unit='chains with a twin pair')
+    off = c19.field_offsets('struct isal_zstream', ['internal_state.state'])['internal_state.state']
+    soff = c19.field_offsets('struct isal_zstate', ['state'])['state']
+    K, drop = mirror.c_values('default', ['igzip_lib.h'], [('TMP', 'ZSTATE_TMP_OFFSET'), ('END', 'ZSTATE_END')], 'c07_tmp')
+    if drop:
+        raise AnalysisBroken('ZSTATE_TMP_OFFSET not found')
+    T, END = K['TMP'], K['END']
+    nchains = 0
+    for fn, f in sorted(mod.funcs.items()):
+        pidx = [n for n, (t, _) in enumerate(f.params) if 'struct.isal_zstream*' in t or 'struct.isal_zstate*' in t]
+        if not pidx:
+            continue
+        P = irrules.prov(mod, f)
+        tests = {}
+        for b in f.order:
+            t = f.blocks[b].insns[-1]
+            c = f.defs.get(t.extra.get('cond', '')) if t.op == 'br' and t.extra.get('cond') else None
+            if c is None or c.op != 'icmp' or c.extra['pred'] not in ('eq', 'ne') or not re.match(r'^\d+$', c.ops[1]):
+                continue
+            d = f.defs.get(irrules._strip(f, c.ops[0]))
+            if d is None or d.op != 'load':
+                continue
+            at = P.atoms(d.ops[0])
+            if not any(a[0] == 'param' and a[1] == pidx[0] and a[2] in (off, soff) for a in at) or len(at) != 1:
+                continue
+            tt, tf = t.extra['targets']
+            hit, miss = (tt, tf) if c.extra['pred'] == 'eq' else (tf, tt)
+            tests[b] = (int(c.ops[1]), hit, miss, c)
+        # chains: b -> miss -> miss ... with the same hit target
+        starts = [b for b in tests if not any(tests[o][2] == b and tests[o][1] == tests[b][1] for o in tests)]
+        for b in starts:
+            chain, cur = [], b
+            while cur in tests and tests[cur][1] == tests[b][1]:
+                chain.append(tests[cur])
+                cur = tests[cur][2]
+            vals = {v for v, _, _, _ in chain}
+            if len(vals) < 2:
+                continue
+            pairs = [v for v in vals if v <= END and v + T in vals]
+            if not pairs:
+                continue
+            nchains += 1
+            R.instance()
+            missing = sorted([v + T for v in vals if v <= END and v + T not in vals] + [v - T for v in vals if v > END and v - T not in vals])
+            R.check(not missing, mod.where(f, chain[0][3]), '%s: the condition lists states %s - it names the pair (%d, %d) but not the twin(s) %s: the same situation reached through the temporary output buffer is not recognised' %
+                    (fn, sorted(vals), pairs[0], pairs[0] + T, missing), key='R-TMP-TWINS|%s|%s' % (fn, chain[0][3].line or 0), sample='%s: %s closed under the TMP twin map' % (fn, sorted(vals)))
+    if nchains == 0:
+        raise AnalysisBroken('R-TMP-TWINS: no condition naming a state together with its TMP twin was found')
+
+
 def main(tier):
     rep = Report('C07', tier, level='other')
     rep.undecided = UNDECIDED
@@ -106,4 +160,5 @@ def main(tier):
     c02.check_rollback(rep)
     c19.check_resume(rep, mod)
     check_state_handled(rep, mod)
+    check_tmp_twins(rep, mod)
     return rep.finish()
